@@ -341,7 +341,9 @@ def ref_load(lay, model, datum, strict):
                     raise Unspecified   # an int-keyed mapping that answers every index: nothing documented forbids it
                 raise Reject("wrong container for list node", trail)
             if type(d) is str:
-                raise Reject("wrong container for list node", trail)
+                if strict:
+                    raise Reject("wrong container for list node", trail)
+                raise Unspecified    # without strict coercion a str is taken as a sequence of characters; the docs do not say
             if isinstance(d, str) or not isinstance(d, cabc.Sequence):
                 if isinstance(d, (list, tuple)):
                     pass
